@@ -197,8 +197,13 @@ def run_shard(args) -> dict:
             else:
                 res["exhaustive_done"] = True
         else:
+            import warnings
+
             import hypothesis
             from hypothesis import HealthCheck, Phase, given, settings
+            from hypothesis.errors import HypothesisWarning
+
+            warnings.simplefilter("ignore", HypothesisWarning)
 
             phases = [Phase.generate] + ([Phase.shrink] if shrink else [])
 
